@@ -195,7 +195,11 @@ def run_case(case):
                     if c.get("res") is not None:
                         kw["resource_dict"] = json.loads(json.dumps(c["res"]))
                         passed[i] = kw["resource_dict"]
-                    futs[i] = ex.submit(fn, *args, **kw)
+                    ctl.next_fid = i
+                    try:
+                        futs[i] = ex.submit(fn, *args, **kw)
+                    finally:
+                        ctl.next_fid = None
                     futs[i]._call_id = i
                     outcomes.append(["submit", i, "ok"])
                 elif kind in ("cancel", "result") and op[1] not in futs:
@@ -280,6 +284,8 @@ def run_case(case):
                 "procs": {p.name: {"alive": p.alive(), "script": p.script, "cwd": p.cwd, "argv": p.args} for p in ctl.procs},
                 "queues": [{"qid": q.qid, "unf": q.unf, "items": [sim.item_desc(i) for i in q.items]} for q in ctl.queues],
                 "parked": {k: list(v) for k, v in ctl.parked_ops().items()},
+                "enabled_final": [e.name for e in sorted([e for e in ctl.ents.values() if e.state == "parked" and (e.pred is None or e.pred())],
+                                                         key=lambda e: sim.ent_key(e.name))],
             })
 
         ctl.capture = capture
@@ -309,6 +315,7 @@ def run_case(case):
         "procs": final["procs"],
         "queues": final["queues"],
         "parked": final["parked"],
+        "enabled_final": final["enabled_final"],
         "dir": final["dir"],
         "nfiles": final["nfiles"],
         "install_error": ctl.extra.get("install_error") or ctl.extra.get("capture_error"),
